@@ -21,6 +21,7 @@ type progGen struct {
 	// rule may be its SIBLING (same head, same body, same number of constraints, other constraint
 	// content) - the usual way of writing a disjunction
 	last      *SRule
+	lastQ     *SRule // the last query that had expressions (source of operator twins)
 	lastVars  map[string]int
 	lastOrder []string
 }
@@ -330,8 +331,45 @@ func (g *progGen) exprs(vars map[string]int, order []string, errProne bool) []SE
 	return out
 }
 
+// operatorTwin: the same rule with ONE binary operator replaced by its sibling over the same operand types
+// (< / >, <= / >=, starts_with / ends_with, && / ||, intersection / union): two rules, checks or queries that
+// differ in nothing but the KIND of one operator are different content
+var twinOp = map[int]int{0: 2, 2: 0, 1: 3, 3: 1, 6: 7, 7: 6, 13: 14, 14: 13, 15: 16, 16: 15}
+
+func operatorTwin(r *RNG, src SRule) (SRule, bool) {
+	type pos struct{ e, o int }
+	var ps []pos
+	for ei, e := range src.Exprs {
+		for oi, op := range e {
+			if op.Kind == 2 {
+				if _, ok := twinOp[op.Bin]; ok {
+					ps = append(ps, pos{ei, oi})
+				}
+			}
+		}
+	}
+	if len(ps) == 0 {
+		return src, false
+	}
+	p := ps[r.Intn(len(ps))]
+	out := SRule{Head: src.Head, Body: src.Body}
+	for ei, e := range src.Exprs {
+		ne := append(SExpr{}, e...)
+		if ei == p.e {
+			ne[p.o].Bin = twinOp[ne[p.o].Bin]
+		}
+		out.Exprs = append(out.Exprs, ne)
+	}
+	return out, true
+}
+
 func (g *progGen) rule(errProne bool) SRule {
 	r := g.rng
+	if g.last != nil && r.Chance(8) {
+		if tw, ok := operatorTwin(r, *g.last); ok {
+			return tw
+		}
+	}
 	if g.last != nil && r.Chance(18) {
 		for try := 0; try < 60; try++ {
 			es := g.exprs(g.lastVars, g.lastOrder, errProne)
@@ -384,7 +422,16 @@ func (g *progGen) query(errProne bool) SRule {
 			}
 		}
 	}
+	if g.lastQ != nil && g.rng.Chance(10) {
+		if tw, ok := operatorTwin(g.rng, *g.lastQ); ok {
+			return tw
+		}
+	}
 	q := SRule{Head: head, Body: body, Exprs: g.exprs(vars, order, errProne)}
+	if len(q.Exprs) > 0 {
+		cp := q
+		g.lastQ = &cp
+	}
 	if g.rng.Chance(8) { // expression-only query
 		q = SRule{Head: SPred{Name: "query"}, Exprs: []SExpr{{{Kind: 0, Val: aInt(1)}, {Kind: 0, Val: aInt(int64(g.rng.Intn(3)))}, {Kind: 2, Bin: 0}}}}
 	}
